@@ -273,7 +273,7 @@ def cmd_run(args) -> int:
     with open(os.path.join(VERIF, "evidence", f"{prop}.json"), "w") as f:
         json.dump(ev, f, indent=1, default=core._json_default)
     print(
-        f"mdsim {prop}: {len(pairs)} runs, {len(nontrivial)} distinct non-trivial, {len(viols)} violating runs "
+        f"mdsim {prop}: {len(pairs)} runs, {cov['distinct_nontrivial']} distinct non-trivial, {len(viols)} violating runs "
         f"({viol_reported} reported, {len(known_lines)} known), {len(harness)} harness failures, {wall:.1f}s -> exit {exit_code}",
         flush=True,
     )
